@@ -41,6 +41,8 @@ package grpcgcp
 //@ protect errPicker.err immutable
 //@ guards gcpBalancer.mu: $created, $removed, $addrs, $connectRequested, $pubCount, $lastState, $lastPicker, $newCalls, $newFail, chanclosed
 //@ lockorder gcpPicker.mu < gcpBalancer.mu < subConnRef.respMu
+//@ racestrict gcpBalancer subConnRef gcpPicker errPicker connectivityStateEvaluator gcpClientStream GCPMultiEndpoint monitoredConn gcpLogger gcpContext
+//@ protect gcpContext.{reqMsg,replyMsg} immutable
 
 // ---------------------------------------------------------------- type and package invariants
 
@@ -321,3 +323,14 @@ package grpcgcp
 //@ func (cs *gcpClientStream) SendMsg
 //@ func (cs *gcpClientStream) RecvMsg
 //@   loop 1 blocking
+
+// ---------------------------------------------------------------- GCPMultiEndpoint (C10, C15, C16)
+
+//@ import multiendpoint "github.com/GoogleCloudPlatform/grpc-gcp-go/grpcgcp/multiendpoint"
+//@ protect GCPMultiEndpoint.{defaultName,mes,pools} guarded_by GCPMultiEndpoint.mu
+//@ protect GCPMultiEndpoint.{opts,gcpConfig,dialFunc,log,ClientConnInterface} immutable
+//@ protect monitoredConn.{endpoint,conn,gme,cancel} immutable
+//@ lockorder GCPMultiEndpoint.mu
+//@ typeinv GCPMultiEndpoint := this.log != nil && this.dialFunc != nil
+//@ typeinv monitoredConn := this.gme != nil && this.conn != nil && this.cancel != nil
+//@ autotag race gcp_multiendpoint.go C10
